@@ -23,10 +23,10 @@ type c10Plan struct {
 	Trace string `json:"trace"`
 	N     int    `json:"n"`
 	T     int    `json:"t"`
-	Step  int    `json:"step"`   // eligible step (mod): the genuine message whose bytes are used
-	Other int    `json:"other"`  // forge: which other participant signs and sends
-	Event int    `json:"event"`  // cross-event: index of the new event name
-	Later int    `json:"later"`  // cross-event: how many steps later the replay is posted (0 = same state)
+	Step  int    `json:"step"`  // eligible step (mod): the genuine message whose bytes are used
+	Other int    `json:"other"` // forge: which other participant signs and sends
+	Event int    `json:"event"` // cross-event: index of the new event name
+	Later int    `json:"later"` // cross-event: how many steps later the replay is posted (0 = same state)
 }
 
 var c10Events = []string{
